@@ -21,6 +21,9 @@ type CutCase struct {
 	// WithErr: the last octets before the cut arrive TOGETHER with the end of the stream (n > 0 and io.EOF from one
 	// Read, as crypto/tls returns them when a close_notify is waiting behind the data)
 	WithErr bool `json:"with_err,omitempty"`
+	// PerLine: one segment per LF-terminated piece of the input (a chunk's payload shares its read with the beginning of
+	// the command line behind it, but not with the BDAT line in front of it)
+	PerLine bool `json:"per_line,omitempty"`
 }
 
 func runCut(c CutCase) (*h.Obs, *h.Backend) {
@@ -32,6 +35,12 @@ func runCut(c CutCase) (*h.Obs, *h.Backend) {
 	var segs [][]byte
 	if c.PerOctet {
 		segs = h.PerOctet(in)
+	} else if c.PerLine {
+		for _, l := range bytes.SplitAfter(in, []byte("\n")) {
+			if len(l) > 0 {
+				segs = append(segs, l)
+			}
+		}
 	} else if len(in) > 0 {
 		segs = h.OneSeg(in)
 	}
